@@ -37,7 +37,7 @@ FLOORS = {"pairs:NONTRIVIAL": 0.35, "pairs:expect-equal": 0.15, "pairs:expect-di
 
 MUTATIONS = [
     "swap_tuple", "frame_shift", "sibling_class", "move_ka_kb", "last_char", "type_only", "fs_permute",
-    "change_value", "noncompare_only", "drop_add_opt", "falsy_swap", "int_vs_str", "bytes_alias",
+    "change_value", "noncompare_only", "drop_add_opt", "falsy_swap", "int_vs_str", "bytes_alias", "hash_flag",
     "child_to_other_field", "origins_only", "identical",
 ]
 
@@ -143,7 +143,7 @@ def _default_spec_value(f: M.FieldDef) -> Any:
 
 
 NEEDS = {
-    "noncompare_only": ["Vals"], "type_only": ["Vals", "LeafA"], "fs_permute": ["Vals"], "bytes_alias": ["Vals"],
+    "noncompare_only": ["Vals"], "type_only": ["Vals", "LeafA"], "fs_permute": ["Vals"], "bytes_alias": ["Vals"], "hash_flag": ["Vals"],
     "swap_tuple": ["MixedItems"], "move_ka_kb": ["Uni"], "drop_add_opt": ["Uni"],
     "sibling_class": ["LeafA", "SubLeafA", "LeafB"], "last_char": ["Strs"], "falsy_swap": ["Falsy", "UniFalsy"],
     "frame_shift": ["Strs"], "int_vs_str": ["Strs"], "child_to_other_field": ["MixedItems", "MixedChild"],
@@ -241,6 +241,16 @@ def mutate(spec: dict, kind: str, n: int) -> tuple[dict, dict, bool]:
         idx = nodes.index(x)
         spec_nodes(a)[idx]["node"].setdefault("p", {})[fname] = va
         x["node"].setdefault("p", {})[fname] = vb
+        return a, b, True
+    if kind == "hash_flag":
+        # what is content follows `compare`, never the dataclass `hash=` option: a comparable field with
+        # hash=False is content, a non-comparable field with hash=True is not
+        x = pick(lambda x: x["node"]["c"] == "Vals")
+        if x is None:
+            return a, b, False
+        fname = "hf" if n % 2 else "hn"
+        x["node"].setdefault("p", {})[fname] = 1 + n % 3
+        spec_nodes(a)[nodes.index(x)]["node"].setdefault("p", {})[fname] = 0
         return a, b, True
     if kind == "bytes_alias":
         x = pick(lambda x: x["node"]["c"] == "Vals")
